@@ -56,7 +56,7 @@ TRUSTED_BASE = [
 ]
 
 PLAN = {   # cases per specialization: (common, own, bad, extreme)
-    'quick': (8, 6, 3, 3),
+    'quick': (20, 20, 10, 10),
     'thorough': (150, 150, 100, 100),
 }
 
@@ -229,14 +229,24 @@ def worker_main(wid, tasklist, skip, san, conn, prog):
                     ml = M.model_line('m%d' % len(mlines), call)
                     if ml is not None:
                         mlines.append(ml)
-                        mcalls.append((call, rc, r['rs'], r['meta']['mode']))
+                        mcalls.append((call, rc, v, r['meta']['mode']))
             if mlines:
                 outs = M.run_model(mlines)
-                for i, (call, rc, rs, mode) in enumerate(mcalls):
-                    mv, md = M.compare_model(call, rc, rs, outs.get('m%d' % i))
+                for i, (call, rc, sv, mode) in enumerate(mcalls):
+                    mv, md = M.compare_model(call, rc, None, outs.get('m%d' % i))
                     res['model'][mv] += 1
-                    if mv not in ('agree', 'abstain'):
-                        res['findings'].append(dict(kind='model-' + mv, what=md, call=call.to_json(), spec=call.spec.name, mode=mode))
+                    if mv == 'bad':
+                        res['findings'].append(dict(kind='bad', what='model of %s: %s' % (call.spec.kernel.name, md),
+                                                    call=call.to_json(), spec=call.spec.name, mode=mode))
+                    elif mv == 'diff':
+                        if sv in ('agree', 'agree-err', 'agree-exactfloat'):
+                            # compiled = YAML definition, so the model is the odd one out: correspondence broken
+                            res['findings'].append(dict(kind='model-diff', what=md, call=call.to_json(), spec=call.spec.name, mode=mode))
+                        elif sv in ('out', 'status'):
+                            pass          # already reported as compiled != definition
+                        else:
+                            # no executable definition: the model is the specification
+                            res['findings'].append(dict(kind='modelspec', what=md, call=call.to_json(), spec=call.spec.name, mode=mode))
             conn.send(res)
         conn.send(None)
     except Exception:      # noqa: BLE001
@@ -451,6 +461,11 @@ def run(tasks, tier, rng):
             sig = signature(kname, 'model')
             what = 'correspondence corr:%s broken: Gallina model differs from the compiled kernel (%s) [%s]' % (kname, kind, f['what'][:400])
             no_input = True
+        elif kind == 'modelspec':
+            sig = signature(kname, 'differs-from-model')
+            what = '%s: compiled kernel differs from its Gallina model, the only executable specification of this kernel (%s stream): %s' % (
+                sp, f.get('mode'), f['what'][:400])
+            no_input = False
         elif kind == 'specializations':
             sig, what, no_input = signature(kname, 'specializations-disagree'), f['what'], False
         elif kind == 'crash':
@@ -477,9 +492,12 @@ def run(tasks, tier, rng):
         findings.append(f)
 
     modelled = sorted(M.MODELS)
+    replay_only = all(c[0] == 'replay' for t in tasks for c in t.cases)
     for k in specs:
         p = per.get(k.name)
         bad = [f for (kd, kn), f in grouped.items() if kn == k.name and f['signature'] not in known]
+        if replay_only and not (p and p['calls'] > 0):
+            continue
         corr['corr:' + k.name] = bool(p and p['calls'] > 0 and not bad)
         if p:
             table[k.name] = dict(calls=p['calls'], specializations=len(p['specs']),
